@@ -19,7 +19,7 @@ var c10Paths = []string{"", "/", "//", "/a", "//a", "/a/", "/a/b", "/a//b", "//a
 	"/{n: /[0-9]+/}/i/all", "/5/i/all", "/{x}", "/{**}", "/b", "/b/", "/b/?{o}", "/b/k", "/a/{y}", "/zz"}
 
 type c10Op struct {
-	Kind   string // "route" | "any" | "headers" | "noheaders"
+	Kind   string // "route" | "any" | "headers" | "noheaders" | "autohead" | "noautohead"
 	Route  string
 	Target int // headers ops: index of the registration they apply to
 }
@@ -41,6 +41,10 @@ func c10Replay(ops []c10Op) (v *vrRouter, ok bool) {
 	}()
 	for _, op := range ops {
 		switch op.Kind {
+		case "autohead":
+			v.r.AutoHead(true)
+		case "noautohead":
+			v.r.AutoHead(false)
 		case "route":
 			regs = append(regs, v.r.Get(op.Route, func() {}))
 		case "any":
@@ -86,13 +90,14 @@ func TestVerifReplayC10(t *testing.T) {
 		return
 	}
 	count, hist, found := 0, 0, false
-	try := func(ops []c10Op) bool {
+	var try func(ops []c10Op) bool
+	try1 := func(ops []c10Op) bool {
 		hist++
 		v, ok := c10Replay(ops)
 		if !ok {
 			return false
 		}
-		for _, m := range []string{"GET", "POST"} {
+		for _, m := range []string{"GET", "POST", "HEAD", "PROPFIND", "get"} {
 			for _, p := range c10Paths {
 				for _, hd := range []bool{false, true} {
 					h := http.Header{}
@@ -112,6 +117,10 @@ func TestVerifReplayC10(t *testing.T) {
 			}
 		}
 		return false
+	}
+	// every history is also replayed with AutoHead switched on first (GET registrations then have a HEAD twin)
+	try = func(ops []c10Op) bool {
+		return try1(ops) || try1(append([]c10Op{{Kind: "autohead"}}, ops...))
 	}
 	headerOps := [][]c10Op{nil, {{Kind: "headers", Target: 0}}, {{Kind: "headers", Target: 1}}, {{Kind: "headers", Target: 0}, {Kind: "noheaders", Target: 0}},
 		{{Kind: "noheaders", Target: 0}}, {{Kind: "headers", Target: 1}, {Kind: "noheaders", Target: 1}}}
